@@ -615,7 +615,8 @@ class PacketTransmitter(Elaboratable):
                 # If we have packets to send, pass them to our transmitter.
                 with m.If(self.bringup_complete & (packets_to_send != 0)):
 
-                    with m.If(~retry_pending):
+                    # (An LBAD arriving right now rewinds our read pointer; what we'd send is a retransmission.)
+                    with m.If(~retry_pending & ~self.retry_required):
                         # Wait until the packet is sent.
                         m.next = "WAIT_FOR_SEND"
 
@@ -651,8 +652,10 @@ class PacketTransmitter(Elaboratable):
                     m.d.comb += dequeue_send.eq(1)
 
                     # If this was the last packet to retransmit, we're done handling this LBAD.
+                    # (Unless another LBAD has arrived just now, which starts the retransmission over.)
                     with m.If(packets_to_send == 1):
-                        m.d.ss += retry_pending.eq(0)
+                        with m.If(~self.retry_required):
+                            m.d.ss += retry_pending.eq(0)
                         m.next = "DISPATCH_PACKET"
 
 
